@@ -138,7 +138,7 @@ def gen_partition(seed, big):
     """C07"""
     rnd = random.Random(seed + 2)
     out = []
-    for ds, de in DELIMS + [('aab', 'bba'), ('// --', '-- //')]:
+    for ds, de in DELIMS + [('aab', 'bba'), ('// --', '-- //'), ('「「', '」」'), ('/* «', '» */'), ('«<', '>»'), ('é<', '>é'), ('<%#', '-%>'), ('@@', '@@'), ('#', '##'), ('##', '#'), ('|', '|')]:
         atoms = sorted(set(list(ds) + list(de) + [' ', '\n', 'x', 'あ', '😀', 'é', ds, de]))
         for _ in range(500 if big else 150):
             src = ''.join(rnd.choice(atoms) for _ in range(rnd.randint(0, 9)))
@@ -192,7 +192,7 @@ def gen_recognition(seed, big):
     equal to tokenize_spec; the gap to leftmost-shortest matching is known finding K1 and is NOT tested here)"""
     rnd = random.Random(seed + 7)
     out = []
-    for ds, de in DELIMS + [('aab', 'bba'), ('// --', '-- //')]:
+    for ds, de in DELIMS + [('aab', 'bba'), ('// --', '-- //'), ('「「', '」」'), ('/* «', '» */'), ('«<', '>»'), ('é<', '>é'), ('<%#', '-%>'), ('@@', '@@'), ('#', '##'), ('##', '#'), ('|', '|')]:
         atoms = sorted(set(list(ds) + list(de) + [' ', 'x', 'あ', ds, de, ds + 'r' + de, ds + de]))
         for _ in range(500 if big else 150):
             src = ''.join(rnd.choice(atoms) for _ in range(rnd.randint(0, 8)))
@@ -404,8 +404,11 @@ def gen_list_all(seed, big):
         "<%(tl)s skip to='2999-01-01 00:00:00'>\nx\n</%(tl)s>\n<%(rm)s name='f1'>\ny\n</%(rm)s>\n",
         "x\n<%(rm)s name='f1' unwrap-block>\nif a {\n  <%(rm)s name='p' skip>\n  k\n  </%(rm)s>\n  m\n}\n</%(rm)s>\nz\n",
         "<%(rm)s name='p'>\n<%(tl)s to='2999-01-01 00:00:00' skip>\na\n</%(tl)s>\n</%(rm)s>\n<other name='f1'>\nb\n</other>\n",
+        # a ready unwrap-block that cannot be unwrapped appears in neither status, but pending elements inside it do
+        "before\n<%(tl)s to='2001-01-01 00:00:00' unwrap-block>\n<%(rm)s name='p'> legacy(); </%(rm)s>\n</%(tl)s>\nafter\n",
+        "x <%(tl)s to='2001-01-01 00:00:00' unwrap-block><%(rm)s name='p'>y</%(rm)s></%(tl)s> z\n",
     ]
-    expect = [(2, 1), (0, 1), (1, 2), None, None, (0, 0), (0, 1), (0, 2), (1, 0)]
+    expect = [(2, 1), (0, 1), (1, 2), None, None, (0, 0), (0, 1), (0, 2), (1, 0), (1, 0), (1, 0)]
     for d, e in zip(docs, expect):
         src = d % {'rm': RM, 'tl': TL}
         out.append((dict(cfg(), mode='list_all_json', source=src, ds='<', de='>', _pair='list_json'), ('LIST_ALL', src, e)))
@@ -439,7 +442,20 @@ def gen_inline(seed, big):
             post = rnd.choice(blanks) + rnd.choice(words)
             parts.append(post); keep.append(post)
             parts.append('\n'); keep.append('\n')
+        if rnd.random() < 0.25:
+            # the document begins with a tag (drop the leading text) and / or ends with one (drop everything behind the last element)
+            while parts and not parts[0].startswith(ds):
+                if parts[0] in keep: keep.remove(parts[0])
+                parts.pop(0)
+        if rnd.random() < 0.25:
+            while parts and not parts[-1].endswith(de):
+                x = parts.pop()
+                for i in range(len(keep) - 1, -1, -1):
+                    if keep[i] == x:
+                        del keep[i]; break
         src = ''.join(parts)
+        if rnd.random() < 0.25:
+            src = src.replace('\n', '\r\n')
         exp = strip_ws(''.join(keep))
         if any(d in exp.replace(ds + TL, '').replace(ds + RM, '').replace(ds + '/', '') for d in ()):
             continue
@@ -577,7 +593,8 @@ def gen_unwrap_wrappers(seed, big):
         post = rnd.choice(['after', 'ü = 1;', '  y', ''])
         body = [ind + '  ' + rnd.choice(['inner();', 'これ', 'a = "é";']) + str(i) for i in range(rnd.randint(1, 4))]
         w1, w2 = ind + rnd.choice(w1s), ind + rnd.choice(w2s)
-        tag = rnd.choice([f"{RM} name='f1' unwrap-block", f"{TL} to='{PAST}' unwrap-block"])
+        tag = rnd.choice([f"{RM} name='f1' unwrap-block", f"{TL} to='{PAST}' unwrap-block", f"{RM} name='f1' c=\"moved from C:\\legacy\\\" unwrap-block",
+                          f"{TL} to='{PAST}' note='it''s' unwrap-block".replace("''", '"'), f"{RM} name='f1'\n  unwrap-block"])
         close = RM if tag.startswith(RM) else TL
         lines = [pre, ind + f'<{tag}>', w1] + body + [w2, ind + f'</{close}>'] + ([post] if post else [])
         src = '\n'.join(lines) + ('\n' if rnd.random() < 0.7 else '')
@@ -590,6 +607,50 @@ def gen_unwrap_wrappers(seed, big):
                 return f'unwrap-block: surviving lines (trimmed) are {got}, expected {want} (source {src!r})'
             return None
         out.append((dict(cfg(), mode='clean', source=src, ds='<', de='>'), oracle))
+    return out
+
+
+def gen_dedent_crlf(seed, big):
+    """C12 on CRLF text, with empty and whitespace-only inner lines (also as the first inner line): CR is not
+    indentation - the shift is (blanks of the first inner line - tag indent), every non-blank inner line moves by exactly
+    that much (not left of the tag column), and every line break of the output is still CR LF."""
+    rnd = random.Random(seed + 14)
+    out = []
+    for _ in range(400 if big else 120):
+        unit = rnd.choice(['  ', '    ', '\t'])
+        t = rnd.randint(0, 2)
+        n = rnd.randint(2, 5)
+        kinds = [rnd.choice(['text', 'text', 'empty', 'blank']) for _ in range(n)]
+        if 'text' not in kinds:
+            kinds[-1] = 'text'
+        levels = [max(0, t + rnd.randint(-1, 2)) for _ in range(n)]
+        first_blanks = 0 if kinds[0] == 'empty' else levels[0]
+        shift = max(0, first_blanks - t)
+        src = ['q', unit * t + f"<{RM} name='f1' unwrap-block>", unit * t + 'if a {']
+        exp = ['q']
+        for i, (k, lv) in enumerate(zip(kinds, levels)):
+            if k == 'empty':
+                src.append('')
+            elif k == 'blank':
+                src.append(unit * lv)
+            else:
+                tx = rnd.choice(['x();', 'これ', 'y = 2; // é']) + str(i)
+                src.append(unit * lv + tx)
+                exp.append(unit * (lv if lv <= t else max(t, lv - shift)) + tx)
+        src += [unit * t + '}', unit * t + f"</{RM}>", 'z']
+        exp.append('z')
+        source = '\r\n'.join(src) + '\r\n'
+        def oracle(r, exp=exp, source=source):
+            if not r.get('ok'):
+                return 'clean panicked: ' + str(r.get('panic'))[:160]
+            o = r['output']
+            got = [l.rstrip('\r') for l in o.split('\n') if l.strip()]
+            if got != exp:
+                return f'CRLF unwrap-block: non-blank lines are {got}, expected {exp} (source {source!r})'
+            if o.count('\r\n') != o.count('\n') or o.count('\r') != o.count('\n'):
+                return f'CRLF unwrap-block: a line break of the output is no longer CR LF: {o!r} (source {source!r})'
+            return None
+        out.append((dict(cfg(), mode='clean', source=source, ds='<', de='>'), oracle))
     return out
 
 
@@ -683,6 +744,9 @@ def gen_list_regions(seed, big):
         if rnd.random() < 0.7:
             lines.append('tail')
         src = '\n'.join(lines) + ('\n' if final_nl else '')
+        crlf = rnd.random() < 0.3
+        if crlf:
+            src = src.replace('\n', '\r\n')      # CRLF text: line numbers and regions must be the same
         def oracle(r, regions=regions, src=src):
             if not r.get('ok'):
                 return 'list panicked: ' + str(r.get('panic'))[:160]
@@ -690,14 +754,27 @@ def gen_list_regions(seed, big):
             if len(items) != len(regions):
                 return f'{len(items)} Ready items listed, {len(regions)} regions are deleted by clean'
             for it, (f, l, text) in zip(items, regions):
-                hl = '\n'.join(_re.findall(r'\x1b\[31m(.*?)\x1b\[0m', it))
+                hl = '\n'.join(_re.findall(r'\x1b\[31m(.*?)\x1b\[0m', it)).replace('\r', '')
                 nums = [int(x) for x in _re.findall(r'^\s*(\d+) \|', it, flags=_re.M)]
                 if hl != text.replace('\t', '    '):
                     return f'highlighted text {hl!r} differs from the region text {text!r}'
                 if not nums or nums[0] != f or nums[-1] != l:
-                    return f'line numbers {nums[:1]}..{nums[-1:]} differ from the region lines {f}..{l}'
+                    return f'line numbers {nums[:1]}..{nums[-1:]} differ from the region lines {f}..{l} (source {src!r})'
             return None
         out.append((dict(cfg(), mode='list', source=src, ds='<', de='>'), oracle))
+        def oracle_json(r, regions=regions, src=src):
+            if not r.get('ok'):
+                return 'list (JSON) panicked: ' + str(r.get('panic'))[:160]
+            try:
+                items = json.loads(r['output'])
+            except Exception as ex:
+                return 'list --list-json did not return valid JSON: ' + repr(ex)[:80]
+            got = [tuple(it['line_range']) for it in items if it.get('current_status') == 'Ready']
+            want = [(f, l) for f, l, _ in regions]
+            if got != want or len(items) != len(regions):
+                return f'JSON line ranges {got} differ from the lines of the regions clean deletes {want} (source {src!r})'
+            return None
+        out.append((dict(cfg(), mode='list_json', source=src, ds='<', de='>'), oracle_json))
     return out
 
 
@@ -741,7 +818,18 @@ def gen_pairing(seed, big):
             seqs.append(tup)
     if not big:
         rnd.shuffle(seqs); seqs = seqs[:2500]
-    long_alpha = alphabet + ['<a x="1">', '<c>', '</c>', '<//a>']
+    # names that are suffixes / prefixes of one another pair by whole-name equality only
+    alphabet2 = ['<ab>', '<b>', '</ab>', '</b>', '<a>', '</a>', 'T']
+    seqs2 = []
+    for n in range(2, (6 if big else 5)):
+        for tup in itertools.product(alphabet2, repeat=n):
+            if any(tup[i] == 'T' and tup[i + 1] == 'T' for i in range(n - 1)):
+                continue
+            seqs2.append(tup)
+    if not big:
+        rnd.shuffle(seqs2); seqs2 = seqs2[:1200]
+    seqs += seqs2
+    long_alpha = alphabet + ['<a x="1">', '<c>', '</c>', '<//a>', '<ab>', '</ab>', '<ba>', '</ba>', '<aa>', '</aa>']
     for _ in range(600 if big else 200):
         n = rnd.randint(6, 14)
         tup = []
@@ -813,7 +901,7 @@ def _back_same(t, d):
 GENERATORS = {
     'C01': [gen_totality], 'C04': [gen_identity, gen_identity_unwrappable, gen_identity_unrecognised], 'C07': [gen_partition], 'C08': [gen_recognition], 'C05': [gen_expiry], 'C06': [gen_marker],
     'C09': [gen_grammar], 'C10': [gen_pairing], 'C02': [gen_blocks, gen_inline], 'C03': [gen_blocks, gen_inline], 'C11': [gen_blocks, gen_unwrap_wrappers], 'C17': [gen_list_all],
-    'C12': [gen_dedent, gen_dedent_nested], 'C13': [gen_blanklines, gen_lines_intact], 'C14': [gen_inline, gen_dedent_nested, gen_unwrap_lines_intact], 'C15': [gen_list_regions],
+    'C12': [gen_dedent, gen_dedent_nested, gen_dedent_crlf], 'C13': [gen_blanklines, gen_lines_intact], 'C14': [gen_inline, gen_dedent_nested, gen_unwrap_lines_intact], 'C15': [gen_list_regions],
 }
 
 
